@@ -12,7 +12,7 @@ from symx.core import SymInt, SymReal, ite, sand
 RATE = 30000.0
 CHUNK = int(round(600.0 * RATE))
 
-DTYPES = {'int16': np.int16, 'float32': np.float32, 'float64': np.float64, 'int32': np.int32,
+DTYPES = {'uint16': np.uint16, 'int16': np.int16, 'float32': np.float32, 'float64': np.float64, 'int32': np.int32,
           'uint8': np.uint8}
 
 
@@ -66,7 +66,7 @@ class SymRecording(object):
         return lam.LArr((self.n, self.nc), dt,
                         lambda idx: _term_elem(D(core.term_of(idx[0]), core.term_of(idx[1])), dt))
 
-    def make_reader(self, pkg, chunk_bounds=None, batch_size=1):
+    def make_reader(self, pkg, chunk_bounds=None, batch_size=1, dtype_kw=None):
         """Build the reader through the real get_ephys_reader on the virtual file system."""
         tr = pkg.load('phylib.io.traces')
         fs = vfs.fs()
@@ -86,9 +86,11 @@ class SymRecording(object):
         if self.backend == 'npy':
             path = vfs.VPath('/d/rec.npy')
             fs.add(path, vfs.npy_entry(self._larr()))
-            return tr.get_ephys_reader(path, sample_rate=RATE)
+            kw = {} if dtype_kw is None else {'dtype': np.dtype(dtype_kw).type}
+            return tr.get_ephys_reader(path, sample_rate=RATE, **kw)
         if self.backend == 'array':
-            return tr.get_ephys_reader(self._larr(), sample_rate=RATE)
+            kw = {} if dtype_kw is None else {'dtype': np.dtype(dtype_kw).type}
+            return tr.get_ephys_reader(self._larr(), sample_rate=RATE, **kw)
         if self.backend == 'cbin':
             path = vfs.VPath('/d/rec.cbin')
             cb = chunk_bounds or [0, self.n]
@@ -123,7 +125,7 @@ class RealRecording(object):
             if dt.kind == 'f':
                 data = (np.arange(n * nc) * 0.5 - 3).astype(dt).reshape(n, nc)
             else:
-                data = ((np.arange(n * nc) * 7 + 1) % 30011 - 1000).astype(dt).reshape(n, nc)
+                data = ((np.arange(n * nc) * 7 + 1) % 30011 - (0 if dt.kind == 'u' else 1000)).astype(dt).reshape(n, nc)
         else:
             data = np.asarray(values, dtype=dt).reshape(n, nc)
         self.data = data
@@ -147,11 +149,12 @@ class RealRecording(object):
                 paths.append(path)
             return tr.get_ephys_reader(paths, sample_rate=RATE, dtype=self.dtype.type, offset=c['offset'],
                                        n_channels_dat=self.nc)
+        dkw = {} if not kw.get('dtype_kw') else {'dtype': np.dtype(kw['dtype_kw']).type}
         if b == 'npy':
             np.save(d / 'rec.npy', self.data)
-            return tr.get_ephys_reader(d / 'rec.npy', sample_rate=RATE)
+            return tr.get_ephys_reader(d / 'rec.npy', sample_rate=RATE, **dkw)
         if b == 'array':
-            return tr.get_ephys_reader(self.data, sample_rate=RATE)
+            return tr.get_ephys_reader(self.data, sample_rate=RATE, **dkw)
         if b == 'cbin':
             import mtscomp
             raw = d / 'rec.bin'
